@@ -73,6 +73,14 @@ CLAIMED = {
          "Generated programs x policies x interleaved writes with per-step oracles.",
          "Only what the scheduler API promises is asserted (no order, no absence of duplicate offers).",
          "DESIGN.md 4/C18"),
+ "C08": ("metamorphic property testing: generated (P,Q,R) triples with declarations, failing commands and nested push/pop inside Q and re-declarations / name-indexed API calls in R: P;push;Q;pop;R vs P;R on independent engines after every command; clone stage: Q on the original, R on the clone in a generated interleaving, each against an independent fresh run",
+         "Generated histories with a metamorphic oracle (outputs, error kinds, canonical dumps, API summaries, one iteration of every ruleset on throw-away clones).",
+         "The run report and fresh-symbol numbering are excluded (pop documents that it keeps them); state that lives only between stage and merge inside one command is C16's business.",
+         "DESIGN.md 4/C08"),
+ "C09": ("property-based testing + byte-level mutation fuzzing (proptest-driven): typed ill-formed mutations from a 72-entry catalogue inserted at every position of generated sessions (plain / term / proof mode) with a no-effect oracle (results + canonical dump + corrected-twin behaviour equal to the session without the bad command); mutated corpus bytes on fresh and long-lived e-graphs; run-time failure sessions; REPL protocol; deep-nesting probes in child processes",
+         "Generated sessions x fault catalogue x positions; panics caught in-process, aborts isolated in children.",
+         "Inputs are sanitised so that they terminate and write only into a scratch directory (counted); unbounded-recursion aborts on extreme nesting and two resource/encoder panics are known findings with regression inputs.",
+         "DESIGN.md 4/C09"),
 }
 
 PENDING_REASON = "check not built yet in this round (work in progress; see DESIGN.md section 8 for the build order)"
